@@ -101,6 +101,12 @@ def check(run):
         hist = M.setup([(i, rand_fr(rng)) for i in range(0, 8) if i != index])
         hist += [f"rln prove_verify {hx(req(mid=1))} {hx(sig)}", mu, "rln root", f"rln prove_verify {hx(req(mid=2))} {hx(sig)}", f"rln get_proof {hex(index)}"]
         seqs.append(hist)
+    # ---- the typed layer called directly (`proof_inputs_to_rln_witness` -> `generate_proof` -> `proof_values_from_witness` ->
+    #      `verify_proof`): in range and verifiable, or an error — also for message ids at / above the limit, which the typed prover
+    #      must refuse by itself (the request parser does not check the range)
+    for lim, mid in ([(100, 1), (100, 99), (100, 100), (100, 101), (1, 0), (1, 1), (2**16, 2**16 - 1), (2**16, 2**16)] if not quick else [(100, 1), (100, 100), (100, 101), (1, 1)]):
+        leaf = rlngen.rate_commitment(zkh, secret, lim)
+        seqs.append([f"typed_prove {hex(index)} {hex(leaf)} {hx(rlngen.prove_request(secret, index, lim, mid, ext, sig))}"])
     # ---- witness entry points
     x = rand_fr(rng)
 
